@@ -303,6 +303,16 @@ if pid == 0:
             with character_buffered(stream):
                 if sp['tty']:
                     r['during'] = cbreak_already_set(f)
+                if sp['tty'] and sp.get('body'):
+                    # the command (or anything else) reconfigures the terminal WHILE the bracket is open
+                    b = termios.tcgetattr(f)
+                    if 'echo' in sp['body']:
+                        b[3] |= termios.ECHO
+                    if 'icanon' in sp['body']:
+                        b[3] |= termios.ICANON
+                    if 'vmin' in sp['body']:
+                        b[6][termios.VMIN] = 5; b[6][termios.VTIME] = 2
+                    termios.tcsetattr(f, termios.TCSADRAIN, b)
                 if sp['raise']:
                     raise RuntimeError('body')
         except RuntimeError:
@@ -325,6 +335,11 @@ def bracket_specs(rng, n):
                 for rz in (False, True):
                     specs.append({"tty": True, "echo": echo, "icanon": icanon, "vmin": vmin, "vtime": vtime, "raise": rz})
     specs += [{"tty": False, "echo": True, "icanon": True, "vmin": 1, "vtime": 0, "raise": rz} for rz in (False, True)]
+    # the body changes the terminal's mode while the bracket is open (`stty echo </dev/tty` in the command): the mode
+    # the terminal had BEFORE the call comes back all the same (theorem `bracket_restores_tty` is over every body)
+    for sp in list(specs):
+        if sp["tty"] and rng.random() < 0.5:
+            specs.append(dict(sp, body=rng.choice(["echo", "icanon", "echo+icanon", "vmin", "echo+icanon+vmin"])))
     rng.shuffle(specs)
     return specs[:n]
 
